@@ -27,7 +27,7 @@ PROPS = {
         assumptions=['reader fragmentation is invisible because every read goes through io.ReadFull/ReadByte/io.CopyBuffer (Go stdlib contract); validated by running 5 reader flavours per case'],
     ),
     'C03': dict(
-        families=['codec'], reports=['codec_enc'], consts=True,
+        families=['codec', 'golden'], reports=['codec_enc', 'golden'], consts=True,
         proof_files=CODEC,
         theorems='c03_layout, c03_layout_unique, c03_stream_layout, c03_kinds_frozen (+ per-run consts_frozen)',
         assumptions=['golden vectors and README digests are checked against the implementation by the harness'],
@@ -71,9 +71,9 @@ PROPS = {
         assumptions=['lookup of an end marker\'s own hash returns the bare marker (second disjunct of c12_find_sound): outside "sub-values", recorded'],
     ),
     'C13': dict(
-        families=['streams', 'hash'], reports=['proc', 'refs', 'tree'],
-        proof_files=STREAMS,
-        theorems='c13_run_is_den, c13_tee, c13_iter_stream, c13_concat, c13_filter, c13_run_tee (+ the identity stages proved under C02, C10, C12)',
+        families=['streams', 'pipeline'], reports=['proc', 'pipeline'],
+        proof_files=STREAMS + ['Proofs/PipelineP.v'],
+        theorems='c13_run_is_den, c13_tee, c13_iter_stream, c13_concat, c13_filter, c13_run_tee, c13_stage_identity, c13_pipeline, c13_pipeline_hash, c13_pipeline_injective_hash',
         assumptions=['Tee side sinks in the adequacy theorem are plain recorders (tame); failing side sinks are covered by C15'],
     ),
     'C14': dict(
@@ -148,5 +148,12 @@ PROPS = {
         theorems='c16_by_name, c16_by_name_fuel, c16_strict_unknown_rejected, c16_strict_deprecated_skipped, c16_unknown_skipped, c16_skip_is_structural (+ c16_merge_edge)',
         assumptions=['by-name theorem: common fields from the round-trip universe (simple_ty) with identical types and zero initial content; other field types are decided by the correspondence',
                      'skip-empty (exactly the zero-valued fields and empty slices are omitted; the stream round-trips) is decided by the correspondence (marshal model with skip_empty) and Go oracles; is_zero mirrors reflect.Value.IsZero'],
+    ),
+    'C11': dict(
+        families=['typed'], reports=['unmarshal'], consts=True,
+        proof_files=TYPED_U + ['Proofs/AnyP.v'],
+        theorems='c11_any_roundtrip, c11_any_decodes, c11_any_remarshals, c11_rejects_nil_field, c11_rejects_composite_key, c11_rejects_nil_key, c11_rejects_nan_key, c11_rejects_big_tuple, c11_rejects_literal/min/max/ref, c11_unregistered_name_dropped (+ c11_unsorted_map_edge)',
+        assumptions=['type names of registered types are outside the proved domain (any_ok); they are covered by the correspondence on streams marshalled from registered catalogue types',
+                     'object field names: ASCII identifiers (go/token.IsIdentifier / IsExported on non-ASCII letters is not modelled; the generators use ASCII names)'],
     ),
 }
